@@ -397,30 +397,28 @@ def r5(ctx):
     ctx.ob(f"{f.qualname}:output-length", ok, f"to_bytes({text(tb[0].args[0]) if tb else '?'}) with {text(lens[0]) if lens else '?'}", loc)
 
 
-@rule("R-C01-6", min_instances=2, title="send_frame returns the number of frame bytes; send returns send_frame's result")
+@rule("R-C01-6", min_instances=2, title="send_frame returns the number of frame bytes (also under short writes); send returns send_frame's result")
 def r6(ctx):
-    stubs = dict(BASE_STUBS)
-    stubs["_abnf:ABNF.format"] = lambda I, run, a, k, n: (run.effect("format", a, k, node=n), Sym("wire", "bytes"))[1]
-    stubs["_core:WebSocket._send"] = lambda I, run, a, k, nd: (run.effect("_send", a[1:], k, node=nd), _len_of(I, run, a[1], nd))[1]
-    I = Interp(ctx.index, Config(stubs=stubs))
+    from .c12 import _send_frame_paths
+    I, outs = _send_frame_paths(ctx)
     q = "_core:WebSocket.send_frame"
-
-    def body(run):
-        ws = mk_websocket(I, run)
-        fr = new_obj(run, "_abnf:ABNF", "frame", get_mask_key=Ext("os.urandom"))
-        return I.call(run, I.getattr(run, ws, "send_frame", None), [fr], {}, None)
-
-    outs = ctx.count_paths(I.explore(body))
     want = App("len", (Sym("wire", "bytes"),), "int")
     rets = [o for o in outs if o.kind == "return"]
     if not rets:
         raise AnalysisError("send_frame has no returning path")
+    nw = set()
     for i, o in enumerate(rets):
+        writes = len([e for e in o.effects if e.name == "_send"])
+        nw.add(writes)
         v = I.resolve(o.run, o.value)
         d = dim_of(o.run, want, (0, INF))
         ok = (isinstance(v, App) and v.key() == want.key()) or (isinstance(v, C) and d.lo == d.hi == v.v)
-        ctx.ob(f"{q}:returns-len-of-formatted-frame:{i}", ok, f"returns {o.value!r}; formatted frame is <wire>", ctx.index.loc(ctx.index.func(q).node),
-               {"path": path_text(o)})
+        ctx.ob(f"{q}:returns-len-of-formatted-frame:writes={writes}", ok,
+               f"returns {o.value!r} after {writes} transport write(s); the formatted frame is <wire>" if ok else
+               f"after {writes} (short) transport writes send_frame returns {o.value!r}, not the number of frame bytes len(<wire>)",
+               ctx.index.loc(ctx.index.func(q).node), {"path": path_text(o)})
+    if max(nw) < 2:
+        raise AnalysisError("no short-write path of send_frame explored")
     # send returns what send_frame returns
     I2 = Interp(ctx.index, Config(stubs=dict(BASE_STUBS, **{"_core:WebSocket.send_frame": lambda I, run, a, k, n: Sym("nbytes", "int")})))
 
